@@ -72,16 +72,18 @@ class Styler:
             if t.type in _FS or pt.type in _FS or "\n" in cur[pb:a]:
                 continue
             c = self.k(9)
+            # the continuation line may start in any column, column 0 included (`x = (a\nor b)`, `if a \\\nand b:`)
+            ind = self.pick(["", "", " ", "  ", "      ", "\t"])
             if c == 0 and cur[pb:a].strip(" \t") == "" and pb < a:
                 cand = cur[:pb] + cur[a:]
             elif c == 1:
                 cand = cur[:a] + "  " + cur[a:]
             elif c == 2 and depth_at[i] > 0:
-                cand = cur[:a] + "\n      " + cur[a:]
+                cand = cur[:a] + "\n" + ind + cur[a:]
             elif c == 3 and depth_at[i] == 0 and pb > 0:
-                cand = cur[:a] + "\\\n  " + cur[a:]
+                cand = cur[:a] + "\\\n" + ind + cur[a:]
             elif c == 4 and depth_at[i] > 0:
-                cand = cur[:a] + "# c\n  " + cur[a:]
+                cand = cur[:a] + "# c\n" + ind + cur[a:]
             else:
                 continue
             ct = pymutate.tokens(cand)
